@@ -156,7 +156,7 @@ def scenario(chk, hname, auto, skip, stale=False):
 
     def f(seed, st):
         # start from a coherent model state: strong values are free, everything derived is recomputed
-        if stale:
+        if stale is True:
             # simulate() is entered with pending updates (inputs assigned while auto-update was off, the setting restored afterwards): the
             # derived nodes still hold the values of the build-time state and are flagged outdated
             model.state = full0
@@ -164,8 +164,12 @@ def scenario(chk, hname, auto, skip, stale=False):
             model.nodes[k]._value = st[k]
         for n in model.nodes.values():
             n._outdated = n.name not in strong
-        if not stale:
+        if stale is not True:
             model.update()
+        if stale == "twice":
+            # an earlier simulate() with another seed: the measured call is determined by its own seed and the ancestors it draws itself
+            model.update()
+            model.simulate(jax.random.fold_in(seed, 5), skip=skip)
         model.simulate(seed, skip=skip)
         model.update()
         out = {k: v.value for k, v in model.state.items() if v.value is not None}
@@ -183,7 +187,7 @@ def scenario(chk, hname, auto, skip, stale=False):
         flags = {k: jnp.asarray(v.outdated) for k, v in model.state.items()}
         return dict(out=out, ref=ref)
     key = jax.random.PRNGKey(17)
-    tag = f"{hname}|auto={auto}|skip={','.join(skip) or '-'}" + ("|entered with pending updates" if stale else "")
+    tag = f"{hname}|auto={auto}|skip={','.join(skip) or '-'}" + ("|entered with pending updates" if stale is True else "|after an earlier simulate() with another seed" if stale else "")
     pref = "".join(ch for ch in tag if ch.isalnum())
     sst = symlike(st0, pref)
     for k in list(sst):            # literal hyper-parameters (auto-named nodes) stay concrete
@@ -249,7 +253,7 @@ def structural(chk, enc, spec, sst, tag, skip):
     keys = [repr(k) for d in enc.I.draws for k in d["keys"]]
     if len(set(keys)) != len(keys):
         chk.violation(f"{tag}:keys", f"simulate[{tag}]: two variables are drawn with the same PRNG key", dict(reproduced=True, note=str(keys)))
-    n_expected = sum(1 for v in spec if not is_skipped(v, skip))
+    n_expected = sum(1 for v in spec if not is_skipped(v, skip)) * (2 if "earlier simulate" in tag else 1)
     if len(keys) != n_expected:
         chk.harness_error(f"{tag}:draw-count", f"expected {n_expected} sampler calls, trace has {len(keys)}")
     for k in keys:
@@ -264,7 +268,8 @@ def main():
                 ("per_obs=False", False, ()), ("two-level+matrix", False, ("a",)), ("direct", False, ("mu_log_prob",)), ("via-calc", False, ("y_var_value",)),
                 ("user-named dist nodes", True, ("mu_prior",)), ("user-named dist nodes", False, ("lik",)), ("uniform root", False, ()), ("uniform root", True, ("y",)), ("int-typed current value", False, ()), ("direct, built with copy=True", True, ()),
                 ("via-calc", True, (), True), ("diamond", True, ("m",), True), ("two-level+matrix", False, (), True),
-                ("root with a derived scale", True, (), True), ("root with a derived scale", False, (), True), ("root with a derived scale", True, ("y",), True), ("root with a derived scale", True, ())]
+                ("root with a derived scale", True, (), True), ("root with a derived scale", False, (), True), ("root with a derived scale", True, ("y",), True), ("root with a derived scale", True, ()),
+                ("via-calc", False, (), "twice"), ("diamond", True, ("m",), "twice")]
     else:
         plan = []
         for h in FAMILY:
@@ -278,7 +283,7 @@ def main():
                 plan.append((h, auto, (), True))
     obs = []
     for h, auto, skip, *stale in plan:
-        enc, spec, order, sst, tag = scenario(chk, h, auto, skip, bool(stale))
+        enc, spec, order, sst, tag = scenario(chk, h, auto, skip, stale[0] if stale else False)
         structural(chk, enc, spec, sst, tag, skip)
         obs += obligations(enc, spec, order, sst, tag, skip)
         chk.validated_points += enc.validate(chk.rng, npoints=1)
@@ -286,7 +291,7 @@ def main():
     chk.functions += ["liesel.model.model.Model.simulate", "liesel.model.model.Model.update", "liesel.model.nodes.Dist.init_dist / update", "liesel.model.nodes.Value.value setter / flag_outdated",
                       "tfd.Normal.sample (traced; jax.random.normal stubbed per key term)"]
     chk.bounds += ["all current node values symbolic reals; shapes (), (2,), (3,), (2,2)", "one simulate() call followed by one update()"]
-    chk.enumerated += [f"{h} auto_update={a} skip={list(s)}" + (" entered with pending updates" if st else "") for h, a, s, *st in plan]
+    chk.enumerated += [f"{h} auto_update={a} skip={list(s)}" + (" entered with pending updates" if st and st[0] is True else " after an earlier simulate()" if st else "") for h, a, s, *st in plan]
     chk.assume("location-scale (Normal) families so that a draw is an explicit function of the sampler's standard normal output", "ideal PRNG: draws memoised by key term; distinct terms are independent draws",
                "real arithmetic", "the from-scratch reference is Model.update() on a second, independently built model with all nodes flagged outdated (its correctness is C01's subject)")
     return chk.finish(technique=TECH)
